@@ -601,10 +601,6 @@ func (d *partialDoc) add(key string, val *lazyNode, options *ApplyOptions) error
 }
 
 func (d *partialDoc) get(key string, options *ApplyOptions) (*lazyNode, error) {
-	if key == "" {
-		return d.self, nil
-	}
-
 	if d.obj == nil {
 		return nil, ErrExpectedObject
 	}
@@ -712,10 +708,6 @@ func (d *partialArray) add(key string, val *lazyNode, options *ApplyOptions) err
 func (d *partialArray) get(key string, options *ApplyOptions) (*lazyNode, error) {
 	if d == nil {
 		return nil, ErrExpectedObject
-	}
-
-	if key == "" {
-		return d.self, nil
 	}
 
 	idx, err := strconv.Atoi(key)
